@@ -12,17 +12,21 @@
 (*     multi-track NewWriter with or without WithSeekableOutput.            *)
 (* Packet bytes are abstracted to (packet id, offset, length) ranges.       *)
 (*                                                                          *)
-(* Impl = "asis"     what the code does: the legacy writer on a plain       *)
-(*                   io.Writer closes without writing any EOS page;         *)
-(* Impl = "intended" it appends an empty EOS page as the multi-track        *)
-(*                   writer does.                                           *)
+(* Impl = "current"  what the code does (since the repair ada877e of the    *)
+(*                   defect this check found): OggWriter.Close on a plain   *)
+(*                   io.Writer (w.fd == nil) appends an empty EOS page with *)
+(*                   writeNilEndOfStreamPage, as the multi-track writer     *)
+(*                   does for outputs that cannot be rewritten;             *)
+(* Impl = "pinned"   the originally pinned code: that Close wrote nothing,  *)
+(*                   so no page of the stream carried end-of-stream. Kept   *)
+(*                   only as the documented counterexample (Ogg_pinned.cfg).*)
 (* TLC checks the normative operators of OggOps on every reachable state    *)
-(* (exhaustively for the bounds of the .cfg); with Impl = "asis" it         *)
+(* (exhaustively for the bounds of the .cfg); with Impl = "pinned" it       *)
 (* exhibits the missing-EOS counterexample.                                 *)
 EXTENDS OggOps, Json, Randomization
 
 CONSTANTS
-  Impl,         \* "asis" | "intended"
+  Impl,         \* "current" | "pinned"
   Apis,         \* subset of {"New", "NewWith", "Writer", "WriterSeek"}
   MaxTracks,    \* tracks of the multi-track writer: 1..MaxTracks
   MaxPackets,   \* packets written in one behaviour: 0..MaxPackets
@@ -177,7 +181,7 @@ Close ==
   /\ phase = "open" /\ (Sample => Len(ops) = cfg.np)
   /\ LET s0 == [out |-> out, trk |-> trk]
          s1 == CASE cfg.api = "New"        -> MarkEos(s0, 1)                         \* w.fd != nil
-                 [] cfg.api = "NewWith"    -> IF Impl = "asis" THEN s0 ELSE NilEos(s0, 1)   \* w.fd == nil: nothing at all
+                 [] cfg.api = "NewWith"    -> IF Impl = "pinned" THEN s0 ELSE NilEos(s0, 1)   \* w.fd == nil: empty EOS page (pinned: nothing)
                  [] cfg.api = "WriterSeek" -> AllMarkEos(IF started THEN s0 ELSE Start(s0), 1)
                  [] OTHER                  -> AllNilEos(IF started THEN s0 ELSE Start(s0), 1)
      IN out' = s1.out /\ trk' = s1.trk
@@ -227,6 +231,8 @@ SimInv == phase = "closed" =>
 (* ---- vector emission ---------------------------------------------------------- *)
 Vec == [api |-> cfg.api,
         tracks |-> [t \in 1..cfg.ntr |-> [ch |-> cfg.ch[t], tag |-> cfg.tag[t], rate |-> cfg.rate[t]]],
-        ops |-> ops, model_pages |-> Len(out)]
+        ops |-> ops, model_pages |-> Len(out),
+        \* pages that do not belong to the OpusHead / OpusTags packets (the sizes of those are abstract in the model)
+        model_data_pages |-> Len(SelectSeq(out, LAMBDA p : p.pkt[2] \notin {1, 2}))]
 EmitVec == (Emit /\ phase = "closed") => PrintT(<<"VERIF_VEC", ToJson(Vec)>>)
 =============================================================================
